@@ -55,13 +55,40 @@ def _set_find(it, f, st, a):
     return It(v, len(v))
 
 
+class HandlerUnion(dict):
+    """the union inside struct sigaction: sa_handler and sa_sigaction are one storage"""
+    ALIAS = {'sa_sigaction': 'sa_handler'}
+
+    def __setitem__(self, k, v):
+        dict.__setitem__(self, self.ALIAS.get(k, k), v)
+
+    def __getitem__(self, k):
+        return dict.__getitem__(self, self.ALIAS.get(k, k))
+
+    def get(self, k, default=None):
+        return dict.get(self, self.ALIAS.get(k, k), default)
+
+    def __contains__(self, k):
+        return dict.__contains__(self, self.ALIAS.get(k, k))
+
+
+def _union(h=0):
+    u = HandlerUnion()
+    dict.__setitem__(u, '__cls__', None)
+    dict.__setitem__(u, '__open__', True)
+    u['sa_handler'] = h
+    return u
+
+
 class Process:
-    def __init__(self, prog, sentinel_for=()):
+    def __init__(self, prog, sentinel_for=(), ignored=()):
         self.prog = prog
         self.disp = {}                  # signo -> {'flags', 'h'}; absent = default
         self.sentinel_runs = []
         for s_ in sentinel_for:
             self.disp[s_] = {'flags': 0, 'h': self.sentinel}
+        for s_ in ignored:
+            self.disp[s_] = {'flags': 0, 'h': 1}          # SIG_IGN
         self.original = {k: dict(v) for k, v in self.disp.items()}
         self.pipes = {}                 # write fd -> list of ints; read fd = write fd - 1
         self.next_fd = 10
@@ -119,7 +146,7 @@ class Process:
         r = it.record_of(a[0])
         if r is not None:
             # a struct sigaction cleared to zero
-            inner = {'__cls__': None, '__open__': True, 'sa_handler': 0, 'sa_sigaction': 0}
+            inner = _union(0)
             it._keep.append(inner)
             mask = {'__cls__': None, '__open__': True}
             it._keep.append(mask)
@@ -131,16 +158,16 @@ class Process:
         inner = self.it.record_of(r.get('__sigaction_handler'))
         h = 0
         if inner is not None:
-            h = inner.get('sa_sigaction') or inner.get('sa_handler') or 0
+            h = inner.get('sa_handler') or 0
         return {'flags': r.get('sa_flags', 0) or 0, 'h': h}
 
     def sa_into(self, r, d):
         inner = self.it.record_of(r.get('__sigaction_handler'))
-        if inner is None:
-            inner = {'__cls__': None, '__open__': True}
+        if inner is None or not isinstance(inner, HandlerUnion):
+            inner = _union(0)
             self.it._keep.append(inner)
             r['__sigaction_handler'] = self.it.ref(inner)
-        inner['sa_handler'] = inner['sa_sigaction'] = d['h']
+        inner['sa_handler'] = d['h']
         r['sa_flags'] = d['flags']
 
     def h_sigaction(self, it, f, st, a):
@@ -276,6 +303,8 @@ class Process:
         if d is None:
             return 'default'
         h = d['h']
+        if h == 1:
+            return 'ignored'
         if h == self.sentinel:
             self.sentinel(signo)
             return 'sentinel'
@@ -304,8 +333,8 @@ def describe(a):
     return '%s(%s)' % (a[0], a[1])
 
 
-def run_script(prog, script, sentinel_for):
-    p = Process(prog, sentinel_for)
+def run_script(prog, script, sentinel_for, ignored=()):
+    p = Process(prog, sentinel_for, ignored)
     loops = {'A': p.new_loop(), 'B': p.new_loop()}
     for lp, sigs, oneshot, victim in EVENTS:
         on_call = None
@@ -325,7 +354,8 @@ def run_script(prog, script, sentinel_for):
                 o = p.original.get(s_)
                 if (d or None) != (o or None) and not (d is not None and o is not None and d['h'] == o['h'] and d['flags'] == o['flags']):
                     return '%s: no event is enabled for signal %d and its disposition is %s where %s was in force before the first subscription' % (
-                        when, s_, 'the handler of the library' if lib else ('the default' if d is None else 'another handler'), 'the default' if o is None else 'the sentinel handler')
+                        when, s_, 'the handler of the library' if lib else ('the default' if d is None else ('"ignore"' if d['h'] == 1 else 'another handler')),
+                        'the default' if o is None else ('"ignore"' if o['h'] == 1 else 'the sentinel handler'))
         return None
     for n, a in enumerate(script):
         when = 'after step %d, %s' % (n + 1, describe(a))
@@ -394,15 +424,15 @@ def r12(ctx, prog):
     scripts.append((('en', 0), ('en', 1), ('en', 2), ('en', 3), ('en', 4), ('deliver', 10), ('deliver', 10), ('deliver', 12), ('dis', 3), ('deliver', 12), ('en', 1), ('deliver', 10)))
     scripts.append((('en', 1), ('deliver', 10), ('deliver', 10), ('en', 1), ('deliver', 10), ('en', 2), ('dis', 2), ('deliver', 10)))
     ctx.rule('C04.R12', 'A10 signal subscription by abstract replay: %d scripts of up to %d steps (enable / disable of five signal events — persistent, one-shot, on a second loop, for two signals, '
-             'one whose callback disables another — and deliveries of two signals, with and without a handler installed beforehand) run on the syntax trees of subscribeSignal, '
+             'one whose callback disables another — and deliveries of two signals, with and without a handler for one signal installed and the other signal ignored beforehand) run on the syntax trees of subscribeSignal, '
              'unsubscribeSignal, onSignal, the process-wide handler and SignalEventImpl over a model of the process (dispositions swapped by sigaction, a pipe per loop, read in '
              'chunks): each delivery gives exactly one callback on every enabled subscribed event in both loops and none elsewhere, the earlier handler runs once per delivery, a one-shot '
              'fires once per enable, the disposition is the library\'s exactly while an event is enabled for the signal and otherwise what it was before, no signal number is '
              'left unread in a pipe' % (2 * len(scripts), depth), floor=1)
     bad = None
-    for sentinel_for in ((), (10,)):
+    for sentinel_for, ignored in (((), ()), ((10,), (12,))):
         for s_ in scripts:
-            why = run_script(prog, s_, sentinel_for)
+            why = run_script(prog, s_, sentinel_for, ignored)
             if why is not None:
                 bad = (s_, sentinel_for, why)
                 break
@@ -410,4 +440,4 @@ def r12(ctx, prog):
             break
     f = prog.fn1(L + '::onSignal')
     ctx.ob('C04.R12', 'signals|replay', bad is None, '%d runs: one callback per enabled subscriber, dispositions restored' % (2 * len(scripts)) if bad is None else
-           'script %s%s: %s' % (' '.join(describe(a) for a in bad[0]), ' with a handler for signal 10 installed beforehand' if bad[1] else '', bad[2]), where=f.loc(f.body))
+           'script %s%s: %s' % (' '.join(describe(a) for a in bad[0]), ' with a handler for signal 10 installed and signal 12 ignored beforehand' if bad[1] else '', bad[2]), where=f.loc(f.body))
